@@ -20,7 +20,7 @@ for _t in ('nterm', 'cterm'):
     others = [g for g in RECORDS['Annotation'] if g != '_%s_mods' % _t]
     C[PA + 'add_%s_mods' % _t] = dict(
         params=dict(self='Annotation', mods='ModList', append='bool'), returns='None', mutates=['self'], trusted=True, raises={},
-        bounded_by='add_* stores: add_internal_mod / add_nterm_mods / add_cterm_mods proved in contracts/stores.py; the others bounded/C20.py',
+        bounded_by='add_* stores: bodies proved (with exact values) in contracts/stores.py',
         ensures=[('terminal-modifications-present', 'self_final._%s_mods is not None' % _t),
                  ('nothing-else', ' and '.join('same(self_final.%s, self.%s)' % (g, g) for g in others))])
 C[PA + 'add_internal_mods'] = dict(
